@@ -55,6 +55,8 @@ def gen_run(seed, tier, i):
         st = structures.gen_multi_group(s_struct, 2, 3)
     elif mode < 0.18:
         st = structures.gen_many(s_struct, 10, 13)
+    elif mode < 0.1806:
+        st = structures.gen_large(s_struct, 300, 400)
     elif mode < 0.19:
         st = structures.gen_large(s_struct, 30, 70)
     else:
